@@ -1,4 +1,6 @@
 import Zc.GenFacts.FnCache
+import Zc.Proofs.CacheIndex
+import Zc.Model.CacheSpec
 /-! # the record manager over the *generated* cache operations  =  the record manager over the model's (C05/C06)
 
 `Zc.ingest` / `Zc.expire` (`RecordManager.async_updates_from_response`, `DNSCache.async_expire` as the model writes them) use the cache
@@ -150,6 +152,66 @@ theorem expire_sim (c : σ) (now : Ms) (hi : Inv c) :
   rw [← d1]
   cases removeAll o1 c ((o1.allRecs c).filter (fun r => r.isExpired now)) <;> rfl
 
+theorem ingest_inv (c : σ) (now : Ms) (recs : List Rec) (hi : Inv c) (out : IngestOut σ) (ho : ingest lower o1 c now recs = .ok out) :
+    Inv out.cache := by
+  obtain ⟨_, p2⟩ := ingestPre_sim lower hs c now recs hi
+  unfold ingest at ho
+  generalize ingestPre lower o1 c now recs = a at p2 ho
+  obtain ⟨_, _, b3⟩ := addAll_sim hs a.cache a.addrAdds p2
+  obtain ⟨_, _, c3⟩ := addAll_sim hs (addAll o1 a.cache a.addrAdds).1 a.otherAdds b3
+  obtain ⟨_, d2⟩ := removeAll_sim hs (addAll o1 (addAll o1 a.cache a.addrAdds).1 a.otherAdds).1
+    (keptRemoves o1 (addAll o1 (addAll o1 a.cache a.addrAdds).1 a.otherAdds).1 a.removes) c3
+  simp only [bind, Except.bind, pure, Except.pure] at ho
+  cases hr : removeAll o1 (addAll o1 (addAll o1 a.cache a.addrAdds).1 a.otherAdds).1
+      (keptRemoves o1 (addAll o1 (addAll o1 a.cache a.addrAdds).1 a.otherAdds).1 a.removes) with
+  | error e => rw [hr] at ho; cases ho
+  | ok c4 =>
+    rw [hr] at ho
+    cases ho
+    exact d2 c4 hr
+
+theorem expire_inv (c : σ) (now : Ms) (hi : Inv c) (o : σ × List Rec) (ho : expire o1 c now = .ok o) : Inv o.1 := by
+  obtain ⟨_, d2⟩ := removeAll_sim hs c ((o1.allRecs c).filter (fun r => r.isExpired now)) hi
+  unfold expire at ho
+  simp only [bind, Except.bind, pure, Except.pure] at ho
+  cases hr : removeAll o1 c ((o1.allRecs c).filter (fun r => r.isExpired now)) with
+  | error e => rw [hr] at ho; cases ho
+  | ok c' =>
+    rw [hr] at ho
+    cases ho
+    exact d2 c' hr
+
+theorem stepEvent_sim (c : σ) (e : Event) (hi : Inv c) :
+    abs (stepEvent lower o1 c e) = stepEvent lower o2 (abs c) e ∧ Inv (stepEvent lower o1 c e) := by
+  cases e with
+  | datagram now recs =>
+    have h1 := ingest_sim lower hs c now recs hi
+    have h2 := ingest_inv lower hs c now recs hi
+    simp only [stepEvent]
+    rw [← h1]
+    cases hr : ingest lower o1 c now recs with
+    | error e => exact ⟨rfl, hi⟩
+    | ok out => exact ⟨rfl, h2 out hr⟩
+  | purge now =>
+    have h1 := expire_sim hs c now hi
+    have h2 := expire_inv hs c now hi
+    simp only [stepEvent]
+    rw [← h1]
+    cases hr : expire o1 c now with
+    | error e => exact ⟨rfl, hi⟩
+    | ok o => exact ⟨rfl, h2 o hr⟩
+
+/-- **along every history of datagrams and purges** the two runs agree through the abstraction, and the invariant holds -/
+theorem runEvents_sim (c : σ) (evs : List Event) (hi : Inv c) :
+    abs (runEvents lower o1 c evs) = runEvents lower o2 (abs c) evs ∧ Inv (runEvents lower o1 c evs) := by
+  unfold runEvents
+  induction evs generalizing c with
+  | nil => exact ⟨rfl, hi⟩
+  | cons e t ih =>
+    obtain ⟨h1, h2⟩ := stepEvent_sim lower hs c e hi
+    rw [List.foldl_cons, List.foldl_cons, ← h1]
+    exact ih _ h2
+
 end Sim
 
 /-! ### the instance: the generated `DNSCache` -/
@@ -192,6 +254,79 @@ theorem genOps_sim {resetTtlG : DNSCache → Rec → DNSCache}
   remove s r h := ⟨async_remove_eq lower s r h, fun s' he => async_remove_inv lower h he⟩
   allRecs s h := by
     simp only [genOps, Cache.ops, Cache.allRecs, absC, allRecs_abs]
+
+/-! ### the two in-place mutators on the generated representation
+
+`reset_ttl` and `async_mark_unique_records_older_than_1s_to_expire` change `created` / `ttl` of cached record *objects*; the same object
+is key and value of its store and sits in both indexes.  Hand-modelled here as a map over every stored record (key and value alike);
+they never change a record's identity, so `CInv` survives and the abstraction sees the model's `mapRecs`. -/
+
+def mapStore (f : Rec → Rec) (st : Store) : Store := st.map (fun p => (f p.1, f p.2))
+def mapIdx (f : Rec → Rec) (d : Idx) : Idx := d.map (fun p => (p.1, mapStore f p.2))
+def mapRecsG (f : Rec → Rec) (s : DNSCache) : DNSCache := { cache := mapIdx f s.cache, service_cache := mapIdx f s.service_cache }
+
+theorem absIdx_map (f : Rec → Rec) (d : Idx) : absIdx (mapIdx f d) = Index.mapRecs f (absIdx d) := by
+  simp only [absIdx, mapIdx, Index.mapRecs, List.map_map, mapStore, PyDict.keys]
+  apply List.map_congr_left
+  intro p _
+  simp [Function.comp, List.map_map]
+
+theorem absC_map (f : Rec → Rec) (s : DNSCache) : absC (mapRecsG f s) = Cache.mapRecs f (absC s) := by
+  simp only [absC, mapRecsG, Cache.mapRecs, absIdx_map]
+
+theorem beq_map {f : Rec → Rec} (hf : ∀ e, (f e).ident lower = e.ident lower) (a b : Rec) :
+    Rec.beq lower (f a) (f b) = Rec.beq lower a b := by
+  apply Bool.eq_iff_iff.2
+  rw [beq_iff_ident, beq_iff_ident, hf, hf]
+
+theorem idxOk_map {f : Rec → Rec} (hf : ∀ e, (f e).ident lower = e.ident lower) {d : Idx} (h : IdxOk lower d) : IdxOk lower (mapIdx f d) := by
+  refine ⟨?_, ?_⟩
+  · have := h.wf
+    unfold PyDict.WF mapIdx at *
+    rw [List.pairwise_map]
+    exact this
+  · intro p hp
+    simp only [mapIdx, List.mem_map] at hp
+    obtain ⟨q, hq, rfl⟩ := hp
+    have hs := h.st q hq
+    refine ⟨?_, ?_⟩
+    · have := hs.wf
+      unfold PyDict.WF mapStore at *
+      rw [List.pairwise_map]
+      exact this.imp (fun {a b} hab => by simpa [beq_map lower hf] using hab)
+    · intro x hx
+      simp only [mapStore, List.mem_map] at hx
+      obtain ⟨y, hy, rfl⟩ := hx
+      simp only [hs.kv y hy]
+
+theorem cinv_map {f : Rec → Rec} (hf : ∀ e, (f e).ident lower = e.ident lower) {s : DNSCache} (h : CInv lower s) : CInv lower (mapRecsG f s) :=
+  ⟨idxOk_map lower hf h.c, idxOk_map lower hf h.s⟩
+
+/-- `maybe_entry.reset_ttl(record)` on the generated representation -/
+def resetTtlG (s : DNSCache) (r : Rec) : DNSCache := mapRecsG (fun e => if e.beq lower r then e.setLife r.created r.ttl else e) s
+
+/-- `async_mark_unique_records_older_than_1s_to_expire` on the generated representation -/
+def markFlushG (s : DNSCache) (uts : List (String × Nat × Nat)) (answers : List Rec) (now : Ms) : DNSCache :=
+  mapRecsG (fun e => if Cache.flushHit lower uts answers now e then e.setLife now 1 else e) s
+
+/-- the residual hypothesis holds of the hand-modelled mutators -/
+theorem residual_ok : ResidualOk lower (resetTtlG lower) (markFlushG lower) where
+  resetTtl s r h := ⟨by simp only [resetTtlG, absC_map, Cache.resetTtl],
+    cinv_map lower (fun e => by split <;> rfl) h⟩
+  markFlush s u a n h := ⟨by simp only [markFlushG, absC_map, Cache.markFlush],
+    cinv_map lower (fun e => by split <;> rfl) h⟩
+
+/-- the record manager's cache operations with the translated functions (and the two hand-modelled in-place mutators) -/
+def srcOps : CacheOps DNSCache := genOps lower (resetTtlG lower) (markFlushG lower)
+
+/-- the generated cache after a history of datagrams and purges, stepped by the translated operations -/
+def srcCacheAfter (evs : List Event) : DNSCache := runEvents lower (srcOps lower) DNSCache.init evs
+
+/-- **Along every history, the generated cache is the model's cache** (through `absC`), and satisfies the representation invariant -/
+theorem srcCacheAfter_abs (evs : List Event) :
+    absC (srcCacheAfter lower evs) = runEvents lower (Cache.ops lower) {} evs ∧ CInv lower (srcCacheAfter lower evs) := by
+  have h := runEvents_sim lower (genOps_sim lower (residual_ok lower)) DNSCache.init evs (cinv_init lower)
+  exact ⟨h.1, h.2⟩
 
 /-- **`async_updates_from_response` over the translated cache operations is the model's `ingest`** (on any generated cache satisfying
 the representation invariant, for every datagram): same cache afterwards, same two observation points for the listeners, same
